@@ -377,3 +377,201 @@ Proof.
   all: step; step; rewrite ?qf_mask2, ?qf_mask34, ?qf_mask56, ?qf_mask65, ?qf_mask66; cbn [negb]; qf_bits; cbn [is_some].
   all: do 8 step; reflexivity.
 Qed.
+
+(* ------------------------------------------------------------------ message bodies *)
+Ltac kill_raises2 H :=
+  cbn [negb] in H; rewrite ?andb_false_r, ?andb_true_r in H; cbv iota in H;
+  repeat match type of H with
+         | (if is_some ?v then None else _) = Some _ =>
+             let E := fresh "E" in destruct v eqn:E; try rewrite E in *; cbn [is_some] in H; cbv iota in H; [discriminate H|]
+         end.
+
+Ltac open_body := unfold p_body; cbn [opcode];
+  unfold op_STARTUP, op_OPTIONS, op_AUTH_RESPONSE, op_CREDENTIALS, op_QUERY, op_PREPARE, op_EXECUTE, op_BATCH, op_REGISTER, op_REVISE_REQUEST;
+  cbn [Z.eqb Pos.eqb].
+
+Lemma body_startup : forall pv c o bs rest, send_body pv (Startup c o) = Some bs ->
+  p_body pv (opcode (Startup c o)) (bs ++ rest) = Some (canon_request pv (Startup c o), rest).
+Proof. intros pv c o bs rest H. cbn [send_body] in H. open_body. step. reflexivity. Qed.
+
+Lemma body_options : forall pv bs rest, send_body pv Options = Some bs ->
+  p_body pv (opcode Options) (bs ++ rest) = Some (canon_request pv Options, rest).
+Proof. intros pv bs rest H. cbn [send_body] in H. inv_cat H. open_body. reflexivity. Qed.
+
+Lemma body_register : forall pv l bs rest, send_body pv (Register l) = Some bs ->
+  p_body pv (opcode (Register l)) (bs ++ rest) = Some (canon_request pv (Register l), rest).
+Proof. intros pv l bs rest H. cbn [send_body] in H. open_body. step. reflexivity. Qed.
+
+Lemma body_auth : forall pv t bs rest, supported pv = true -> session_ok pv (AuthResponse t) = true ->
+  send_body pv (AuthResponse t) = Some bs ->
+  p_body pv (opcode (AuthResponse t)) (bs ++ rest) = Some (canon_request pv (AuthResponse t), rest).
+Proof.
+  intros pv t bs rest Hs Hok H. cbn [send_body session_ok] in *. open_body.
+  all_versions Hs; try discriminate Hok; cbv iota; step; reflexivity.
+Qed.
+
+Lemma body_credentials : forall pv l bs rest, supported pv = true -> send_body pv (Credentials l) = Some bs ->
+  p_body pv (opcode (Credentials l)) (bs ++ rest) = Some (canon_request pv (Credentials l), rest).
+Proof.
+  intros pv l bs rest Hs H. cbn [send_body] in *. open_body.
+  all_versions Hs; try discriminate H. cbv iota in *. change (write_stringmap l = Some bs) in H. step. reflexivity.
+Qed.
+
+Lemma body_revise : forall pv a b c bs rest, supported pv = true -> session_ok pv (Revise a b c) = true ->
+  send_body pv (Revise a b c) = Some bs ->
+  p_body pv (opcode (Revise a b c)) (bs ++ rest) = Some (canon_request pv (Revise a b c), rest).
+Proof.
+  intros pv a b c bs rest Hs Hok H. cbn [send_body session_ok canon_request] in *. open_body.
+  all_versions Hs; try discriminate Hok; cbv iota in *; destruct (a =? 2) eqn:Ea;
+  try (destruct (c <=? 0); [inv_cat H; discriminate|]); cbn [negb] in H; cbv iota in H;
+  inv_cat H; try discriminate; rewrite <- ?app_assoc; cbn [app negb]; cbv iota; step; step; rewrite ?Ea; cbv iota; try step; reflexivity.
+Qed.
+
+
+Lemma qf_zero : (query_flags false false false false false false false false =? 0) = true.
+Proof. reflexivity. Qed.
+
+Lemma body_query : forall pv q m bs rest, supported pv = true -> session_ok pv (Query q m) = true ->
+  send_body pv (Query q m) = Some bs ->
+  p_body pv (opcode (Query q m)) (bs ++ rest) = Some (canon_request pv (Query q m), rest).
+Proof.
+  intros pv q m bs rest Hs Hok H. cbn [send_body session_ok canon_request] in *. open_body.
+  apply andb_prop in Hok. destruct Hok as [Hp Hts].
+  destruct (Z.eq_dec pv 1) as [->|Hne].
+  - (* v1: <query><consistency> *)
+    destruct m as [params cl serial fetch pstate ts skip cpo ks].
+    unfold write_query_params in H. unfold canon_params, ts_ok in *.
+    cbn [q_params q_cl q_serial q_fetch q_paging_state q_timestamp q_skip_meta q_cpo q_keyspace] in *.
+    ev_pv 1. destruct params; [discriminate Hp|]. destruct ts; [discriminate Hts|].
+    apply cat_Some in H. destruct H as (bq & y & Hq & H & ->).
+    kill_raises2 H. cbn [is_some cpo_unit_bytes w_opt option_map] in *. rewrite qf_zero in H.
+    inv_cat H. rewrite <- ?app_assoc; cbn [app]. cbv iota. step. step. reflexivity.
+  - inv_cat H. rewrite <- ?app_assoc. step.
+    assert (Hp1 : (pv =? 1) = false) by (apply Z.eqb_neq; exact Hne). rewrite Hp1.
+    erewrite bind_step.
+    2:{ eapply rt_query_params; try eassumption. unfold params_ok. destruct (q_params m); [discriminate Hp|reflexivity]. }
+    reflexivity.
+Qed.
+
+Lemma rt_rmid : forall pv rm b rest, supported pv = true ->
+  (if pv_uses_prepared_metadata pv then write_string_req rm else wnil) = Some b ->
+  p_if (v5_features pv) p_string (b ++ rest) = Some (if pv_uses_prepared_metadata pv then rm else None, rest).
+Proof.
+  intros pv rm b rest Hs H. all_versions Hs; cbv iota in *;
+  first [ inv_leaf H; apply p_if_false
+        | destruct rm; [|discriminate H]; apply p_if_true; apply rt_string; exact H ].
+Qed.
+
+Lemma body_execute : forall pv id rm m bs rest, supported pv = true -> session_ok pv (Execute id rm m) = true ->
+  send_body pv (Execute id rm m) = Some bs ->
+  p_body pv (opcode (Execute id rm m)) (bs ++ rest) = Some (canon_request pv (Execute id rm m), rest).
+Proof.
+  intros pv id rm m bs rest Hs Hok H. cbn [send_body session_ok canon_request] in *. open_body.
+  apply andb_prop in Hok. destruct Hok as [Hok Hks]. apply andb_prop in Hok. destruct Hok as [Hts Hp].
+  destruct (Z.eq_dec pv 1) as [->|Hne].
+  - destruct m as [params cl serial fetch pstate ts skip cpo ks].
+    unfold execute_write_query_params in H. unfold canon_params, ts_ok in *.
+    cbn [q_params q_cl q_serial q_fetch q_paging_state q_timestamp q_skip_meta q_cpo q_keyspace] in *.
+    ev_pv 1. destruct ts; [discriminate Hts|]. destruct ks; [discriminate Hks|]. cbv iota in *.
+    apply cat_Some in H. destruct H as (bq & y & Hq & H & ->).
+    apply cat_Some in H. destruct H as (b0 & y' & H0 & H & ->). inv_leaf H0.
+    kill_raises2 H.
+    destruct (truthy_z fetch) eqn:Ef; [discriminate H|]. destruct (truthy_b pstate) eqn:Ep; [discriminate H|].
+    cbn [is_some orb] in H. cbv iota in H. kill_raises2 H.
+    destruct params as [ps|]; [|discriminate H].
+    inv_cat H. rewrite <- ?app_assoc; cbn [app]. step. step. step. reflexivity.
+  - assert (Hp1 : (pv =? 1) = false) by (apply Z.eqb_neq; exact Hne).
+    unfold execute_write_query_params in H. rewrite Hp1 in *.
+    inv_cat H. rewrite <- ?app_assoc. step.
+    erewrite bind_step by (eapply rt_rmid; eassumption).
+    erewrite bind_step.
+    2:{ eapply rt_query_params; eassumption. }
+    reflexivity.
+Qed.
+
+Lemma pf_bit0 : forall b, bit (flag_if b c_PREPARED_WITH_KEYSPACE_FLAG) 0 = b.
+Proof. destruct b; reflexivity. Qed.
+Lemma pf_mask : forall b, only_bits (flag_if b c_PREPARED_WITH_KEYSPACE_FLAG) 1 = true.
+Proof. destruct b; reflexivity. Qed.
+
+Lemma body_prepare : forall pv q ks bs rest, supported pv = true ->
+  send_body pv (Prepare q ks) = Some bs ->
+  p_body pv (opcode (Prepare q ks)) (bs ++ rest) = Some (canon_request pv (Prepare q ks), rest).
+Proof.
+  intros pv q ks bs rest Hs H. cbn [send_body canon_request] in *. open_body.
+  all_versions Hs; kill_raises2 H; cbn [flag_if Z.eqb] in H; cbv iota in *;
+  inv_cat H; rewrite <- ?app_assoc; cbn [app]; step;
+  try (step; rewrite pf_mask; cbn [negb]; cbv iota; rewrite pf_bit0; step); reflexivity.
+Qed.
+
+Lemma rt_shortbytes : forall s a rest, write_short (len s) = Some a -> p_string (a ++ s ++ rest) = Some (s, rest).
+Proof. intros s a rest H. unfold p_string. rewrite (bind_step _ _ _ _ _ (rt_short _ _ _ H)). apply p_take_len. Qed.
+
+Definition bquery_ok (pv : Z) (q : bquery) : bool := match q with BQ _ _ ps => values_ok pv ps end.
+
+Lemma rt_bquery : forall pv q bs rest, bquery_ok pv q = true -> write_bquery q = Some bs ->
+  p_bquery pv (bs ++ rest) = Some (canon_bquery q, rest).
+Proof.
+  intros pv [[|] s ps] bs rest Hok H; cbn [write_bquery bquery_ok canon_bquery] in *; unfold p_bquery;
+  inv_cat H; rewrite <- ?app_assoc; cbn [app]; step; cbn [Z.eqb Pos.eqb]; cbv iota.
+  - erewrite bind_step by (eapply rt_shortbytes; eassumption). step. reflexivity.
+  - step. step. reflexivity.
+Qed.
+
+Lemma rt_bqueries : forall pv qs a b rest, forallb (bquery_ok pv) qs = true ->
+  write_short (len qs) = Some a -> write_seq write_bquery qs = Some b ->
+  p_list (p_bquery pv) (a ++ b ++ rest) = Some (map canon_bquery qs, rest).
+Proof.
+  intros pv qs a b rest Hok Ha Hb. rewrite app_assoc.
+  eapply (rt_list write_bquery (p_bquery pv) canon_bquery (bquery_ok pv) (rt_bquery pv)); [exact Hok|].
+  rewrite Ha, Hb. reflexivity.
+Qed.
+
+Lemma batch_flags_bits : forall s t k, let fl := batch_flags s t k in
+  bit fl 4 = s /\ bit fl 5 = t /\ bit fl 7 = k /\ bit fl 8 = false /\ 0 <= fl /\
+  only_bits fl 432 = true /\ only_bits fl 176 = true /\ (k = false -> only_bits fl 48 = true).
+Proof. intros s t k. destruct s, t, k; vm_compute; repeat split; intros; congruence. Qed.
+Lemma bf_bit4 : forall s t k, bit (batch_flags s t k) 4 = s. Proof. intros. apply batch_flags_bits. Qed.
+Lemma bf_bit5 : forall s t k, bit (batch_flags s t k) 5 = t. Proof. intros. apply batch_flags_bits. Qed.
+Lemma bf_bit7 : forall s t k, bit (batch_flags s t k) 7 = k. Proof. intros. apply batch_flags_bits. Qed.
+Lemma bf_bit8 : forall s t k, bit (batch_flags s t k) 8 = false. Proof. intros. apply batch_flags_bits. Qed.
+Lemma bf_nonneg : forall s t k, 0 <= batch_flags s t k. Proof. intros. apply batch_flags_bits. Qed.
+Lemma bf_mask432 : forall s t k, only_bits (batch_flags s t k) 432 = true. Proof. intros. apply batch_flags_bits. Qed.
+Lemma bf_mask176 : forall s t k, only_bits (batch_flags s t k) 176 = true. Proof. intros. apply batch_flags_bits. Qed.
+Lemma bf_mask48 : forall s t, only_bits (batch_flags s t false) 48 = true. Proof. intros. apply batch_flags_bits. reflexivity. Qed.
+
+Lemma body_batch : forall pv ty qs cl serial ts ks bs rest, supported pv = true ->
+  session_ok pv (Batch ty qs cl serial ts ks) = true ->
+  send_body pv (Batch ty qs cl serial ts ks) = Some bs ->
+  p_body pv (opcode (Batch ty qs cl serial ts ks)) (bs ++ rest) = Some (canon_request pv (Batch ty qs cl serial ts ks), rest).
+Proof.
+  intros pv ty qs cl serial ts ks bs rest Hs Hok H. cbn [send_body session_ok canon_request] in *. open_body.
+  apply andb_prop in Hok. destruct Hok as [Hok Hqs]. apply andb_prop in Hok. destruct Hok as [Hv Hts].
+  change (forallb (bquery_ok pv) qs = true) in Hqs.
+  do 4 (apply cat_Some in H; let x := fresh "p" in let Hx := fresh "Hp" in destruct H as (x & ? & Hx & H & ->)).
+  rewrite <- ?app_assoc.
+  all_versions Hs; try discriminate Hv; cbv iota in *; step;
+  (erewrite bind_step by (eapply rt_bqueries; eassumption)); step.
+  { (* v2 *) destruct (truthy_z serial) eqn:E1; [discriminate H|]. destruct ts; [discriminate H|]. destruct ks; [discriminate H|].
+    cbn [is_some orb] in H. cbv iota in H. inv_cat H. reflexivity. }
+    all: kill_raises2 H; cbn [is_some w_opt] in *; inv_cat H; rewrite <- ?app_assoc; cbn [app].
+    all: first [ step | erewrite bind_step by (eapply rt_int_as_uint; [apply bf_nonneg | eassumption]) ].
+    all: rewrite ?bf_mask48, ?bf_mask432, ?bf_mask176; cbn [negb]; cbv iota; rewrite ?bf_bit4, ?bf_bit5, ?bf_bit7, ?bf_bit8; cbn [is_some].
+    all: do 4 step; reflexivity.
+Qed.
+
+Theorem rt_body : forall pv r bs rest, supported pv = true -> session_ok pv r = true ->
+  send_body pv r = Some bs -> p_body pv (opcode r) (bs ++ rest) = Some (canon_request pv r, rest).
+Proof.
+  intros pv r bs rest Hs Hok H. destruct r.
+  - apply body_startup; assumption.
+  - apply body_options; assumption.
+  - apply body_auth; assumption.
+  - apply body_credentials; assumption.
+  - apply body_query; assumption.
+  - apply body_prepare; assumption.
+  - apply body_execute; assumption.
+  - apply body_batch; assumption.
+  - apply body_register; assumption.
+  - apply body_revise; assumption.
+Qed.
